@@ -6,7 +6,7 @@ from checks import modelbased
 MANIFEST = {
     "technique": "model-based property testing (Hypothesis): pad/fill reference functions and option-encoding round trips vs rpad, rpad_and_clip, fillna and toIndexedOptionArray64/toByteMaskedArray/simplify on generated encodings",
     "level_text": "Generated-input exploration: arrays with options at any level in all five encodings (negative index, byte mask of either polarity with non-0/1 bytes, bit mask in both bit orders and polarities with lengths that are not multiples of 8 and arbitrary padding bits, unmasked) x target 0..5 x axis x clip; rpad/rpad_and_clip/fillna must equal the reference functions and every conversion between encodings must preserve the decoded value. Held on everything generated outside the recorded known findings.",
-    "level_note": "Trusted: akmodel.ops (rpad/fillna), akmodel.decode (which states the five encodings' meaning independently of the C++), the /verif bridge. The Python-level part (ak.mask with a flat mask and either polarity, ak.is_none, ak.fill_none at axis 0 / None, ak.pad_none at axis 0 / 1) runs on the akshim emulation of awkward._ext; deeper axes of these functions are covered through the tier-L operations only.",
+    "level_note": "Trusted: akmodel.ops (rpad/fillna), akmodel.decode (which states the five encodings' meaning independently of the C++), the /verif bridge. The Python-level part (ak.mask with a flat mask and either polarity, ak.is_none, ak.fill_none at axis 0 / None, ak.pad_none at axis 0 / 1) runs on the akshim emulation of awkward._ext; deeper axes of these functions are covered through the tier-L operations only. The Python-level part fills with numbers and with ak.Record values taken from positions 0-2 of an array of records.",
 }
 RULE = ("case = (physical description with options, rpad|rpad_and_clip|fillna|convert, arguments); expected = reference function on the decoded value; "
         "non-trivial = the array holds >= 1 None and >= 1 non-None and the result is non-empty; distinct by hash of the case")
